@@ -44,6 +44,8 @@ ASSUMPTIONS = [
     "a via-circuit connection whose circuit fails/closes before its stream is announced is outside the statement (counted only)",
     "whether the attacher is consulted at all for a .exit target is not judged; only that nothing is sent",
     "bounded progress: a via-circuit connect() whose circuit stays BUILT must not fail before even trying its SOCKS endpoint",
+    "a stream first heard of when it is already CLOSED/FAILED is not attachable: no decision may be sent for it; a decided stream that later ends (FAILED then CLOSED, DETACHED/FAILED/CLOSED, or CLOSED) gets no further decision",
+    "the local port of a via-circuit connection whose SOCKS link died before Tor announced a stream may be handed to a later via-circuit connection through another circuit; that one must be attached to its own circuit",
 ]
 TRUSTED_BASE = ["vf.faketor.core", "harness SOCKS server script"]
 ANCHORS = ["txtorcon.torstate:TorState._maybe_attach", "txtorcon.torstate:TorState._stream_update",
@@ -51,6 +53,8 @@ ANCHORS = ["txtorcon.torstate:TorState._maybe_attach", "txtorcon.torstate:TorSta
            "txtorcon.circuit:_CircuitAttacher.attach_stream", "txtorcon.circuit:_CircuitAttacher._add_real_target",
            "txtorcon.circuit:TorCircuitEndpoint.connect", "txtorcon.attacher:PriorityAttacher.attach_stream"]
 FLOORS = {"quick": {"evaluations": 800, "streams_judged": 2500, "via_connections_judged": 600,
+                    "via_connections_on_a_reused_local_port": 30, "streams_first_seen_already_closed": 80,
+                    "streams_first_seen_already_failed": 80, "decided_streams_ended_by_failed": 300,
                     "reach:txtorcon.torstate:TorState._maybe_attach": 2000,
                     "reach:txtorcon.circuit:_CircuitAttacher.attach_stream": 500},
           "thorough": {"evaluations": 15000, "streams_judged": 50000, "via_connections_judged": 12000}}
@@ -409,7 +413,19 @@ def run_answers(case, rec):
             w.circ_event(step[1], step[2], step[3] if len(step) > 3 else None)
         elif op == "later":
             sid, status = step[1], step[2]
-            w.stream_event(sid, status, step[3], "example.com:80")
+            w.stream_event(sid, status, step[3], "example.com:80",
+                           " REASON=END REMOTE_REASON=CONNECTREFUSED" if status == "FAILED" else
+                           (" REASON=END" if status == "CLOSED" else ""))
+            if status in ("FAILED", "CLOSED"):
+                rec.count("decided_streams_ended_by_" + status.lower())
+        elif op == "ghost":
+            # a stream first heard of when it is already over (its NEW fell into the window before
+            # SETEVENTS took effect): not attachable, so no decision may be sent for it
+            sid, status = step[1], step[2]
+            plan[sid] = {"sid": sid, "kind": "NEW", "answer": step[3], "mode": "sync", "circ": 1}
+            w.stream_event(sid, status, 0, "ghost.example:80", " REASON=END")
+            decided_at[sid] = ("nothing", None)
+            rec.count("streams_first_seen_already_" + status.lower())
         elif op == "second-attacher":
             alog2 = []
             other = make_attacher(w, {}, alog2)
@@ -440,6 +456,10 @@ def run_answers(case, rec):
         got = [(s, c) for (s, c, _) in w.attach_lines if s == sid]
         exp = decided_at[sid]
         icls = "exit-target" if p["kind"] == "exit" else "answer=%s" % p["answer"]
+        if sid >= 70:
+            icls = "stream-first-seen-when-already-over"
+        elif any(st[0] == "later" and st[1] == sid and st[2] in ("FAILED", "CLOSED") for st in case["steps"]):
+            icls += "+stream-ended-later"
         rec.seen("answer_kinds", "%s/%s/%s" % (p["kind"], p["answer"], p["mode"]))
         if exp[0] == "attach":
             if got != [(sid, exp[1])]:
@@ -528,6 +548,20 @@ def gen_answers_case(rnd, combo=None):
     for s in streams:
         if rnd.random() < 0.5:
             steps.append(("later", s["sid"], rnd.choice(["SENTCONNECT", "REMAP", "SUCCEEDED"]), rnd.choice([1, 2, 5])))
+    for s in streams:
+        # the end of a stream's life: Tor reports FAILED and then CLOSED for a failing stream, else CLOSED
+        r = rnd.random()
+        c = rnd.choice([1, 2, 5])
+        if r < 0.25:
+            steps += [("later", s["sid"], "FAILED", c), ("later", s["sid"], "CLOSED", c)]
+        elif r < 0.4:
+            steps.append(("later", s["sid"], "CLOSED", c))
+        elif r < 0.5:
+            steps += [("later", s["sid"], "DETACHED", c), ("later", s["sid"], "FAILED", 0), ("later", s["sid"], "CLOSED", 0)]
+    if rnd.random() < 0.3:
+        for g in range(rnd.choice([1, 1, 2])):
+            steps.insert(rnd.randrange(len(steps) + 1),
+                         ("ghost", 70 + g, rnd.choice(["CLOSED", "FAILED"]), rnd.choice(["none", "built", "dna"])))
     return {"kind": "answers", "streams": streams, "steps": steps, "remove": rnd.random() < 0.4,
             "priority": rnd.choice([0, 0, 2, 5]), "priority_late": rnd.random() < 0.4,
             "remove_before_ack": rnd.random() < 0.2, "chunking": gen.chunking(rnd)}
@@ -706,6 +740,9 @@ def run_via(case, rec):
         if not cn["announced"]:
             continue
         icls = "via-circuit/%s" % ("circuit-" + (cn.get("circ_state_at_announce") or "gone").lower())
+        if c.get("late"):
+            icls += "+local-port-of-a-dead-connection-reused"
+            rec.count("via_connections_on_a_reused_local_port")
         got = [(s, ci) for (s, ci, _) in w.attach_lines if s == c["sid"]]
         if cn.get("circ_state_at_announce") != "BUILT":
             rec.count("via_circuit_not_built_at_announce")
@@ -776,10 +813,12 @@ def gen_via_case(rnd, nconn=None, perm=None):
     rnd.shuffle(est)
     steps += est
     ann = [("announce", c["i"]) for c in conns]
+    lost_victim = None
     if n >= 2 and rnd.random() < 0.35:
         victim = rnd.randrange(n)
         if rnd.random() < 0.5:
             steps.append(("socks-lost", victim))            # after every link is up, before any announcement
+            lost_victim = victim
         else:
             k = steps.index(("establish", victim))
             steps[k] = ("socks-refuse", victim)
@@ -809,6 +848,14 @@ def gen_via_case(rnd, nconn=None, perm=None):
     for c in conns:
         if rnd.random() < 0.3:
             steps.append(("reuse", c["i"], 300 + c["i"]))
+    if lost_victim is not None and rnd.random() < 0.7:
+        # later the OS hands the dead connection's local port to a new via-circuit connection
+        # that goes through another circuit
+        v = conns[lost_victim]
+        late = {"i": n, "circ": {1: 2, 2: 1}.get(v["circ"], 1), "host": "late.example", "port": 443,
+                "srcport": v["srcport"], "sid": 100 + n, "late": True}
+        conns.append(late)
+        steps += [("connect", n), ("pump",), ("establish", n), ("announce", n), ("succeed", n)]
     return {"kind": "via", "conns": conns, "steps": steps, "chunking": gen.chunking(rnd),
             "burst": rnd.random() < 0.5}
 
